@@ -375,10 +375,10 @@ impl SwiftField for Field11 {
         Self: Sized,
     {
         ensure_ascii(input, "Field 11")?;
-        // Field 11 requires at least 9 characters (3 for MT + 6 for date)
-        if input.len() < 9 {
+        // Field 11 is exactly 9 characters (3 for MT + 6 for date); anything after them would be dropped
+        if input.len() != 9 {
             return Err(ParseError::InvalidFormat {
-                message: "Field 11 requires at least 9 characters (3 for MT + 6 for date)"
+                message: "Field 11 requires exactly 9 characters (3 for MT + 6 for date)"
                     .to_string(),
             });
         }
